@@ -173,7 +173,9 @@ CHECKS = {
                 "complete expansion then sign (no seen-set, routing or limit); exclusions are compiled with DOTMATCH forced; order and "
                 "repetition never matter (Perm invariance); exclusions alone match nothing unless NEGATEALL; MINUSNEGATE; `!(` under "
                 "EXTMATCH is not a negation; exclude= equals inline negation under stated hypotheses (false for SPLIT with a top-level "
-                "`|` inside one exclusion — kernel witness); expansion order braces -> split -> tilde; WcSplit join/no-bar/print facts. "
+                "`|` inside one exclusion — kernel witness); expansion order braces -> split -> tilde; WcSplit join/no-bar/print facts; wcSplit_seq_agree (C07seq, since the D34 repair "
+                "421a2e4: on every text the SPLIT scanner ends a bracket expression where the faithful port of WcParse._sequence ends it and gives "
+                "up exactly when the parser does, Unix rules or PATHNAME). "
                 "Ties K3 (WcSplit on all strings <= 6 over its alphabet) and K4 (lists through fnmatch/filter/compile/translate/"
                 "globmatch/globfilter: regex texts and match bits); search: list result == boolean combination of single-pattern real results.",
         'note': TB + "bracex is a parameter under the contract BraceOK; per-pattern matching is C01/C02.",
@@ -311,7 +313,8 @@ CHECKS['C05'].update({
     'text': "Theorems (Lean): C05_partial_split — for EVERY pattern string and flag word, the parts `_GlobSplit` produces (model globSplit) satisfy "
             "the shape facts the walker theorem needs (globSplit_WFParts / _drive / _litText; also: no '/' inside a literal part, never two adjacent "
             "globstars — the former base-part exception was the RGLOBSTAR defect, repaired —, non-empty parts; split_base_only — MATCHBASE / _EXTMATCHBASE change nothing in the split but the "
-            "base part in front: same parts, same compiled regexes as under the flags with both bits cleared, the G6 repair), and for those parts the walker model returns exactly the paths the inductive "
+            "base part in front: same parts, same compiled regexes as under the flags with both bits cleared, the G6 repair; seq_scanners_agree — on every text the splitter steps over a bracket "
+            "expression exactly as the faithful port of WcParse._sequence reads it, POSIX classes, `^`, a leading `]` and escapes included: the D34 repair 421a2e4), and for those parts the walker model returns exactly the paths the inductive "
             "specification Denotes — for every tree, under hypotheses that exclude exactly the recorded defects (a literal first name followed by further parts names a "
             "directory, D17; the SegAgree hypothesis — re.match vs full match, D14 — is a theorem since the D14 repair, segAgree_all, and the "
             "C05_main_* corollaries are stated without it), no FOLLOW, fuel above the tree height. `**` = Below "
@@ -557,7 +560,7 @@ CHECKS['C04'].update({
             "directory demand AND no piece a `**` stands for is a symlinked directory); and from it the C04 EQUALITY ON THE MODELS — glob results = paths matchReal accepts — "
             "for every tree and every path: C04_main_globfree (globstar-free patterns), C04_main_one_glob (A/**/B), C04_main_end_glob (A/** and A/**/, provable since the D7 "
             "repair: both accepting spans of the group give the same link test), under EXTGLOB|SCANDOTDIR(+DOTGLOB) with every excluded defect an explicit hypothesis "
-            "(D3 newline, D8 `**/` on a non-directory, D17 literal first segment, POSIX classes in brackets: posix_split_defect = D34, being repaired). Supporting: "
+            "(D3 newline, D8 `**/` on a non-directory, D17 literal first segment, POSIX classes in brackets — a limit of the bridge proof only since the D34 repair 421a2e4, which this proof found: D34_bridge_fixed_witness). Supporting: "
             "globSplit_printPath (one part per segment), pass_print_path_real (the REALPATH pass), real_glob_caps / _end (every accepting run binds the group to the same text), "
             "fsMatch_one_glob / fsMatch_end_glob. " + CHECKS['C04']['text'],
 })
